@@ -1,3 +1,133 @@
 import Holpy.Common.Sexp
-/- stub: replaced when the C12 model is built -/
-def main : IO Unit := Holpy.lineLoop (fun _ => "bad-op")
+import Holpy.C12.Model
+/-
+Line protocol of the C12 model (one s-expression in, one out):
+  (run FUEL NAMES FILES LAZY MODS PARSE OPS) -> ((RES (EV ...)) ... ) THY)   one (RES EVs) per op
+  (spec K NAMES FILES LAZY MODS PARSE n LIM) -> (ok (item ...)) | (error KIND)
+NAMES = (n ...)                     directory listing
+FILES = ((n (import ...) (item ...) mtime) ...)
+LAZY  = ((n m) ...)                 `if filename == n: import m`
+MODS  = ((m (ACT ...)) ...)         ACT = (imp m) | (load n)
+PARSE = ((item KIND ((alt ...) ...)) ...) KIND = ok (ok iff every group has a visible member, else err) | err | raise;
+        unlisted items: ok
+OPS   = (load n LIM FAULT) | (imp m) | (touch n t) | (edit n (import ...) (item ...) t) | (reload)
+LIM   = none | start | (item i);  FAULT = none | i
+RES   = ok | cycle | key | order | parse | limit | fuel;  THY = none | (item ...)
+EV    = (read n) | (exec m) | meta
+-/
+open Holpy Holpy.C12
+
+namespace Holpy.C12.Driver
+
+def natsOf (s : Sexp) : Option (List Nat) := do (← s.toList?).mapM Sexp.toNat?
+
+def fileOf : Sexp → Option (Name × File)
+  | .list [n, is, its, t] => do
+    some ((← n.toNat?), { imports := (← natsOf is), items := (← natsOf its), mtime := (← t.toNat?) })
+  | _ => none
+
+def pairOf : Sexp → Option (Nat × Nat)
+  | .list [a, b] => do some ((← a.toNat?), (← b.toNat?))
+  | _ => none
+
+def actOf : Sexp → Option Act
+  | .list [.atom "imp", m] => do some (.imp (← m.toNat?))
+  | .list [.atom "load", n] => do some (.load (← n.toNat?))
+  | _ => none
+
+def modOf : Sexp → Option (Mod × List Act)
+  | .list [m, as] => do some ((← m.toNat?), (← (← as.toList?).mapM actOf))
+  | _ => none
+
+inductive Kind where | ok | err | raise
+
+def ruleOf : Sexp → Option (Item × Kind × List (List Item))
+  | .list [i, .atom k, rs] => do
+    let kd ← (match k with | "ok" => some Kind.ok | "err" => some Kind.err | "raise" => some Kind.raise | _ => none)
+    some ((← i.toNat?), kd, (← (← rs.toList?).mapM natsOf))
+  | _ => none
+
+def limOf : Sexp → Option Limit
+  | .atom "none" => some .none
+  | .atom "start" => some .start
+  | .list [.atom "item", i] => do some (.item (← i.toNat?))
+  | _ => none
+
+def faultOf : Sexp → Option (Option Item)
+  | .atom "none" => some none
+  | s => do some (some (← s.toNat?))
+
+def opOf : Sexp → Option Op
+  | .list [.atom "load", n, l, f] => do some (.load (← n.toNat?) (← limOf l) (← faultOf f))
+  | .list [.atom "imp", m] => do some (.imp (← m.toNat?))
+  | .list [.atom "touch", n, t] => do some (.touch (← n.toNat?) (← t.toNat?))
+  | .list [.atom "edit", n, is, its, t] => do some (.edit (← n.toNat?) (← natsOf is) (← natsOf its) (← t.toNat?))
+  | .list [.atom "reload"] => some .reloadMeta
+  | _ => none
+
+def lookupD {α} (d : α) (l : List (Nat × α)) (k : Nat) : α := (l.lookup k).getD d
+
+def mkWorld (lazy : List (Nat × Nat)) (mods : List (Mod × List Act)) (rules : List (Item × Kind × List (List Item))) : World :=
+  { parse := fun i ctx =>
+      match rules.lookup i with
+      | none => .ok
+      | some (.raise, _) => .raise
+      | some (.err, _) => .err
+      | some (.ok, reqs) => if reqs.all (fun g => g.any (fun r => ctx.contains r)) then .ok else .err
+    lazyOf := fun n => lazy.lookup n
+    body := fun m => lookupD [] mods m }
+
+def errTo : Option Err → String
+  | none => "ok"
+  | some .cycle => "cycle"
+  | some .key => "key"
+  | some .order => "order"
+  | some .parse => "parse"
+  | some .limit => "limit"
+  | some .fuel => "fuel"
+
+def evTo : Event → Sexp
+  | .readFile n => .list [.atom "read", Sexp.ofNat n]
+  | .execMod m => .list [.atom "exec", Sexp.ofNat m]
+  | .metaLoad => .atom "meta"
+
+def thyTo : Option (List Item) → Sexp
+  | none => .atom "none"
+  | some l => .list (l.map Sexp.ofNat)
+
+/-- run the ops one by one, reporting result and the events of each op -/
+def runOps (W : World) (fuel : Nat) : List Op → State → List Sexp → List Sexp × State
+  | [], s, acc => (acc.reverse, s)
+  | op :: ops, s, acc =>
+    let r := step W fuel op { s with log := [] }
+    runOps W fuel ops r.2 (.list [.atom (errTo r.1), .list (r.2.log.map evTo)] :: acc)
+
+def setup (names files lazy mods parse : Sexp) : Option (World × List Name × (Name → File)) := do
+  let ns ← natsOf names
+  let fs ← (← files.toList?).mapM fileOf
+  let lz ← (← lazy.toList?).mapM pairOf
+  let ms ← (← mods.toList?).mapM modOf
+  let rs ← (← parse.toList?).mapM ruleOf
+  some (mkWorld lz ms rs, ns, lookupD { imports := [], items := [], mtime := 0 } fs)
+
+def handle (line : String) : String :=
+  match Sexp.parse line with
+  | some (.list [.atom "run", fuel, names, files, lazy, mods, parse, ops]) =>
+    match fuel.toNat?, setup names files lazy mods parse, (ops.toList?.bind fun l => l.mapM opOf) with
+    | some f, some (W, ns, fs), some os =>
+      let (res, s) := runOps W f os (initState ns fs) []
+      toString (Sexp.list [.list res, thyTo s.thy])
+    | _, _, _ => "bad-op"
+  | some (.list [.atom "spec", k, names, files, lazy, mods, parse, n, lim]) =>
+    match k.toNat?, setup names files lazy mods parse, n.toNat?, limOf lim with
+    | some k, some (W, ns, fs), some n, some l =>
+      let L : Lib := { names := ns, imports := fun n => (fs n).imports, items := fun n => (fs n).items }
+      match specLoad W L k n l with
+      | .ok t => toString (Sexp.list [.atom "ok", .list (t.map Sexp.ofNat)])
+      | .error e => toString (Sexp.list [.atom "error", .atom (errTo (some e))])
+    | _, _, _, _ => "bad-op"
+  | _ => "bad-op"
+
+end Holpy.C12.Driver
+
+def main : IO Unit := Holpy.lineLoop Holpy.C12.Driver.handle
